@@ -89,6 +89,8 @@ def sym_exc(ip, base="exc", kinds=None):
 
 def new_cancelled(ip, tag=None):
     e = ExcVal(asyncio.CancelledError, ())
+    if tag is None and ip.ctx.shield > 0:
+        tag = z3.BoolVal(False)  # inside a shielded scope only a native Task.cancel() can interrupt
     e.tag = tag if tag is not None else ip.st.fresh("cancel_is_anyio", z3.BoolSort())
     return e
 
@@ -479,6 +481,19 @@ def aev_wait(ip, e):
     return AwaitableVal("aevent_wait", e)
 
 
+# asyncio.Task (E3) -------------------------------------------------------------
+
+
+def task_cancelling(ip, t):
+    c = ip.st.get("Task", "cancelling", t.t)
+    ip.st.assume(c >= 0)
+    return Sym(c, INT)
+
+
+def task_done(ip, t):
+    return Sym(ip.st.get("Task", "done", t.t), BOOL)
+
+
 MODEL_METHODS = {
     "deque": {
         "append": dq_append,
@@ -507,6 +522,7 @@ MODEL_METHODS = {
         "result": fut_result,
     },
     "AEvent": {"set": aev_set, "is_set": aev_is_set, "wait": aev_wait},
+    "Task": {"cancelling": task_cancelling, "done": task_done},
 }
 
 
